@@ -1,8 +1,8 @@
 SPECIFICATION Spec
 VIEW View
 CONSTANTS D = 2
-  MaxPages = 9
-  MaxWriters = 5
+  MaxPages = 12
+  MaxWriters = 4
   MaxCbs = 0
   MVals = {"-"}
   CVals = {"-"}
